@@ -27,8 +27,10 @@ def mval(v: T.Any) -> str:
     return mstr(v)
 
 
-def run(chk: Check, space: T.Dict[str, T.Any], judge: T.Callable[..., None], account: T.Callable[..., None]) -> None:
+def run(chk: Check, space: T.Dict[str, T.Any], judge: T.Callable[..., None], account: T.Callable[..., None],
+        base: str) -> None:
     from . import c14_template as m
+    m._init_worker(base)     # this module sees its own copy of c14_template (the driver runs as __main__)
     common.use_repo_meson()
     quick = chk.tier == 'quick'
     rnd = random.Random(chk.seed * 611953 + 17)
